@@ -3,6 +3,7 @@ package props
 import (
 	"bufio"
 	"bytes"
+	"errors"
 	"fmt"
 	"io"
 
@@ -223,7 +224,7 @@ func c11Harness(cfg *Cfg) func(x *mc.Exec) {
 			return
 		}
 		if oerr != nil {
-			if oerr == E && !whole && len(wantData) == 0 {
+			if errors.Is(oerr, E) && !whole && len(wantData) == 0 {
 				x.Outcome("open: E")
 				return
 			}
@@ -247,7 +248,7 @@ func c11Harness(cfg *Cfg) func(x *mc.Exec) {
 		ending := "blocked"
 		if !blocked {
 			ending = errClass(err)
-			if err == E {
+			if errors.Is(err, E) {
 				ending = "E"
 			}
 		}
